@@ -30,6 +30,8 @@ type Loaded struct {
 	modRoot string
 	debugNames map[ssa.Value]string
 	regexGlobals map[string]string
+	pureMemo map[*ssa.Function]bool
+	funcTables map[string][]*ssa.Function
 }
 
 const modulePath = "cuelabs.dev/go/oci/ociregistry"
@@ -83,6 +85,7 @@ func LoadPackages(patterns []string) (*Loaded, error) {
 	L.allFuncs = ssautil.AllFunctions(prog)
 	L.scanGlobals()
 	L.scanRegexGlobals()
+	L.scanFuncTables()
 	return L, nil
 }
 
